@@ -67,28 +67,56 @@ type Model struct {
 	fidPath map[uint64]string
 }
 
+// TreeEntry is one path of an initial tree (see Scan).
+type TreeEntry struct {
+	Path string
+	Dir  bool
+	Size int64
+}
+
+// Scan records the tree under root (in walk order) so that several models can start from the same initial
+// state after the filesystem itself has moved on.
+func Scan(root string) []TreeEntry {
+	var out []TreeEntry
+	filepath.Walk(root, func(p string, info os.FileInfo, err error) error {
+		if err != nil {
+			return nil
+		}
+		out = append(out, TreeEntry{Path: p, Dir: info.IsDir(), Size: info.Size()})
+		return nil
+	})
+	return out
+}
+
 // New creates a model whose initial (durable) state is the tree under roots.
 func New(roots ...string) *Model {
 	m := &Model{dirs: map[string]*dirState{}, current: map[string]*inode{}, fids: map[uint64]*inode{}, fidPath: map[uint64]string{}}
 	for _, r := range roots {
-		filepath.Walk(r, func(p string, info os.FileInfo, err error) error {
-			if err != nil {
-				return nil
-			}
-			in := m.newInode(info.IsDir())
-			in.initial = true
-			in.len, in.syncLen, in.everSync = info.Size(), info.Size(), true
-			m.current[p] = in
-			if info.IsDir() {
-				m.dir(p)
-			}
-			if p != r {
-				m.dir(filepath.Dir(p)).durable[filepath.Base(p)] = in
-			}
-			return nil
-		})
+		m.addTree(r, Scan(r))
 	}
 	return m
+}
+
+// NewFrom creates a model whose initial (durable) state is a tree recorded by Scan(root).
+func NewFrom(root string, tree []TreeEntry) *Model {
+	m := &Model{dirs: map[string]*dirState{}, current: map[string]*inode{}, fids: map[uint64]*inode{}, fidPath: map[uint64]string{}}
+	m.addTree(root, tree)
+	return m
+}
+
+func (m *Model) addTree(r string, tree []TreeEntry) {
+	for _, e := range tree {
+		in := m.newInode(e.Dir)
+		in.initial = true
+		in.len, in.syncLen, in.everSync = e.Size, e.Size, true
+		m.current[e.Path] = in
+		if e.Dir {
+			m.dir(e.Path)
+		}
+		if e.Path != r {
+			m.dir(filepath.Dir(e.Path)).durable[filepath.Base(e.Path)] = in
+		}
+	}
 }
 
 func (m *Model) newInode(dir bool) *inode {
